@@ -344,11 +344,15 @@ class HAcc(object):
             a, b = self.half, c
             self.half = None
             eng.prove(z3.And(a >= 0, a <= 255, b >= 0, b <= 255), "acc-byte-range", lineno)
+            if getattr(self.spec, "mode", "lnotab") == "lt310":
+                self._put310(eng, a, b, env_fn, lineno)
+                continue
             inc = z3.If(b >= 128, b - 256, b) if self.signed else b
             yields = z3.And(a != 0, z3.Or(z3.Not(self.has_last), self.line != self.last))
             if self.spec.on_yield is not None:
                 env = dict(env_fn())
                 env.update(addr=SInt(self.addr), line=SInt(self.line), nyield=SInt(self.nyield))
+                env["_env"] = env
                 goal = call_by_names(self.spec.on_yield, env)
                 eng.prove(z3.Implies(yields, _be(goal)), "acc-yield", lineno)
             self.nyield = z3.simplify(z3.If(yields, self.nyield + 1, self.nyield))
@@ -357,6 +361,27 @@ class HAcc(object):
             self.addr = z3.simplify(self.addr + a)
             self.line = z3.simplify(self.line + inc)
             self.npairs = z3.simplify(self.npairs + 1)
+
+    def _put310(self, eng, a, b, env_fn, lineno):
+        """3.10 line table (Objects/lnotab_notes.txt, dis.findlinestarts over code.co_lines()): a pair is a range of `a` bytes
+        whose line is the running line plus the signed `b` (b == -128: the range has no line and the running line stays);
+        empty ranges only move the line; a line start is yielded at the start of a non-empty range whose line differs from the
+        last one yielded"""
+        noline = (b == 128)
+        inc = z3.If(b >= 128, b - 256, b)
+        new_line = z3.If(noline, self.line, self.line + inc)
+        yields = z3.And(z3.Not(noline), a != 0, z3.Or(z3.Not(self.has_last), new_line != self.last))
+        if self.spec.on_yield is not None:
+            env = dict(env_fn())
+            env.update(addr=SInt(self.addr), line=SInt(z3.simplify(new_line)), nyield=SInt(self.nyield))
+            env["_env"] = env
+            eng.prove(z3.Implies(yields, _be(call_by_names(self.spec.on_yield, env))), "acc-yield", lineno)
+        self.nyield = z3.simplify(z3.If(yields, self.nyield + 1, self.nyield))
+        self.last = z3.simplify(z3.If(yields, new_line, self.last))
+        self.has_last = z3.simplify(z3.Or(self.has_last, yields))
+        self.addr = z3.simplify(self.addr + a)
+        self.line = z3.simplify(new_line)
+        self.npairs = z3.simplify(self.npairs + 1)
 
     # views for contracts
     @property
@@ -386,8 +411,8 @@ class HAcc(object):
 
 
 class AccSpec(object):
-    def __init__(self, first, signed, on_yield=None):
-        self.first, self.signed, self.on_yield = first, signed, on_yield
+    def __init__(self, first, signed, on_yield=None, mode="lnotab"):
+        self.first, self.signed, self.on_yield, self.mode = first, signed, on_yield, mode
 
 
 class HMap(object):
